@@ -74,7 +74,7 @@ def main(argv):
     old = {}
     if (out / "meta.json").exists():
         old = json.load(open(out / "meta.json"))
-    for k in ("needs_to_manifest", "what", "suite", "suite_passed"):
+    for k in ("needs_to_manifest", "what", "suite", "suite_passed", "detection_history", "origin"):
         if k in old and k not in meta:
             meta[k] = old[k]
     json.dump(meta, open(out / "meta.json", "w"), indent=1)
